@@ -485,10 +485,6 @@ func (c01) Run(raw json.RawMessage) Result {
 		return Result{Obs: o, Coq: coq, Nontrivial: len(c.Ws) > 1 || (c.Max > 0 && total > c.Max), Class: "free/" + c.Tag}
 	}
 	o := strmRunCtl(c.strmCtlCase)
-	if o.Hang {
-		// cannot happen unless a loop lost its yield point: report as a disagreement
-		o.Steps = nil
-	}
 	coq := coqlit.App("Ctl", fmt.Sprint(c.Max), strmProgsCoq(c.Progs), strmSchedCoq(c.Sched), o.coq())
 	cls := c.Tag
 	if cls == "" {
@@ -503,12 +499,12 @@ func (c01) Run(raw json.RawMessage) Result {
 // c01Brief keeps the evidence small: number of steps, last step, final buffer.
 func c01Brief(o strmCtlObs) any {
 	type brief struct {
-		Steps       int        `json:"steps"`
+		Steps       int         `json:"steps"`
 		Returns     []strmEvent `json:"returns"`
-		Buf         string     `json:"buf"`
-		Final       *strmSnap  `json:"final,omitempty"`
-		Interleaved bool       `json:"interleaved"`
-		Hang        bool       `json:"hang,omitempty"`
+		Buf         string      `json:"buf"`
+		Final       *strmSnap   `json:"final,omitempty"`
+		Interleaved bool        `json:"interleaved"`
+		Hang        bool        `json:"hang,omitempty"`
 	}
 	b := brief{Steps: len(o.Steps), Buf: o.Buf, Interleaved: o.Interleaved, Hang: o.Hang}
 	for _, s := range o.Steps {
